@@ -106,6 +106,12 @@ SYMS = {
                                                                'b': {'aggregate': 'last'}, 'arr': {'aggregate': 'array'},
                                                                'obj': {'aggregate': 'any'}, 'd': {'aggregate': 'sum'},
                                                                'mixes': {'name': 'mix', 'aggregate': 'set'}}, source_delete=False),
+    'join_full_diffkey': S('join', 'res_1', ['m'], 'res_2', ['k'], {'s_last': {'name': 's', 'aggregate': 'last'}}, mode='full-outer'),
+    'acf_chain': S('add_computed_field', [{'target': 'c1', 'operation': 'sum', 'source': ['m', 'm']},
+                                          {'target': 'c2', 'operation': 'multiply', 'source': ['c1', 'm']},
+                                          {'target': 'c3', 'operation': 'format', 'with': '{c1}/{c2}'}], resources='res_1'),
+    'acf_int_first': S('add_computed_field', [{'target': 'c_mix', 'operation': 'sum', 'source': ['m', 'n']},
+                                              {'target': 'c_mixmax', 'operation': 'max', 'source': ['m', 'd']}], resources='res_1'),
     'join_self': S('join_with_self', 'res_2', ['i'], {'i': None, 'm_avg': {'name': 'm', 'aggregate': 'avg'},
                                                         'k_max': {'name': 'k', 'aggregate': 'max'},
                                                         'cnt': {'aggregate': 'count'}}),
